@@ -165,6 +165,7 @@ type fuseCtx struct {
 	evalDepth  int
 	junctions  int
 	parenShape bool
+	parenInt   bool // parenthesize takes the parent's precedence level instead of the parent
 }
 
 type fuseReport struct {
@@ -341,6 +342,29 @@ func ruleFuse(c *Ctx) {
 				return true
 			})
 		}
+		if t == "BinaryExpr" {
+			// evaluated per operator on the SSA form (switch, if chain or lookup table alike), over the operators the
+			// parser can build
+			if bp := binaryPrecedences(c); len(bp) > 0 && len(fc.domains["BinaryExpr.Op"]) > 0 {
+				seen := map[int64]bool{}
+				var vals []int64
+				all := true
+				for _, d := range fc.domains["BinaryExpr.Op"] {
+					v, ok := bp[d]
+					if !ok {
+						all = false
+						break
+					}
+					if !seen[v] {
+						seen[v] = true
+						vals = append(vals, v)
+					}
+				}
+				if all {
+					fc.prec[t] = vals
+				}
+			}
+		}
 		if len(fc.prec[t]) == 0 {
 			c.undecided("anchor:precedence:"+t, fd.Pos(), "%s.precedence does not return precedence constants", t)
 			return
@@ -348,6 +372,9 @@ func ruleFuse(c *Ctx) {
 	}
 	// parenthesize has the shape the model assumes
 	fc.parenShape = fc.checkParenthesize()
+	if !fc.parenShape && fc.checkParenthesizeInt() {
+		fc.parenShape, fc.parenInt = true, true
+	}
 	c.check(fc.parenShape, "fuse:parenthesize-shape", posOf(c.funcDecl("internal/ast", "parenthesize")),
 		"parenthesize(e, other) wraps e in ( ) exactly when e.precedence() < other.precedence()",
 		"parenthesize no longer has the shape `if e.precedence() < other.precedence() { return \"(\" + e.String() + \")\" }; return e.String()`: the junction analysis' model of it is wrong")
@@ -435,6 +462,28 @@ func (fc *fuseCtx) checkParenthesize() bool {
 	if !ok || types.ExprString(is.Cond) != e+".precedence() < "+o+".precedence()" || len(is.Body.List) != 1 {
 		return false
 	}
+	return fc.parenBody(fd, is, e)
+}
+
+// checkParenthesizeInt: the same function taking the parent's precedence level instead of the parent:
+// parenthesize(e Expr, level int) wraps e exactly when e.precedence() < level.
+func (fc *fuseCtx) checkParenthesizeInt() bool {
+	fd := fc.c.funcDecl("internal/ast", "parenthesize")
+	if fd == nil || len(fd.Body.List) != 2 || len(fd.Type.Params.List) != 2 || len(fd.Type.Params.List[0].Names) != 1 || len(fd.Type.Params.List[1].Names) != 1 {
+		return false
+	}
+	if b, ok := fc.info.TypeOf(fd.Type.Params.List[1].Type).Underlying().(*types.Basic); !ok || b.Kind() != types.Int {
+		return false
+	}
+	e, o := fd.Type.Params.List[0].Names[0].Name, fd.Type.Params.List[1].Names[0].Name
+	is, ok := fd.Body.List[0].(*ast.IfStmt)
+	if !ok || types.ExprString(is.Cond) != e+".precedence() < "+o || len(is.Body.List) != 1 {
+		return false
+	}
+	return fc.parenBody(fd, is, e)
+}
+
+func (fc *fuseCtx) parenBody(fd *ast.FuncDecl, is *ast.IfStmt, e string) bool {
 	r1, ok := is.Body.List[0].(*ast.ReturnStmt)
 	if !ok || types.ExprString(r1.Results[0]) != `"(" + `+e+`.String() + ")"` {
 		return false
@@ -447,7 +496,11 @@ func (fc *fuseCtx) checkParenthesize() bool {
 func (fc *fuseCtx) collectDomains() {
 	// package parser: per-token evaluation of every function that builds a node (gramssa.go)
 	if g := newGssa(fc.c); g != nil {
-		doms := g.tokenDomains()
+		doms, _ := fc.c.memo["gssa.tokenDomains"].(map[string][]string)
+		if doms == nil {
+			doms = g.tokenDomains()
+			fc.c.memo["gssa.tokenDomains"] = doms
+		}
 		var keys []string
 		for k := range doms {
 			keys = append(keys, k)
@@ -1350,6 +1403,13 @@ func (fc *fuseCtx) call(env *fuseEnv, x *ast.CallExpr) *sabs {
 			if nm := named(deref(fc.info.TypeOf(x.Args[1]))); nm != nil {
 				of = nm.Obj().Name()
 			}
+			if fc.parenInt {
+				// ... or that node's precedence level: recv.precedence(), directly or through a local defined once as that
+				if !fc.isRecvPrecedence(env, x.Args[1]) {
+					fc.c.undecided("fuse:parenthesize-level:"+env.fn, x.Pos(), "the level passed to parenthesize is not the precedence of the node being printed (%s.precedence())", env.recvName)
+					return opaqueAbs(src)
+				}
+			}
 			return fc.exprAbs(fc.typesAt(env, x.Args[0]), of, src)
 		}
 		callee := fc.c.funcDecl("internal/ast", fn.Name())
@@ -1404,4 +1464,49 @@ func numAbs(src string) *sabs {
 	a.heads['-'] = true
 	a.tails['0'] = true
 	return a
+}
+
+// isRecvPrecedence: e is recv.precedence(), or a local variable of the enclosing method whose only definition is that.
+func (fc *fuseCtx) isRecvPrecedence(env *fuseEnv, e ast.Expr) bool {
+	isCall := func(x ast.Expr) bool {
+		call, ok := stripParens(x).(*ast.CallExpr)
+		if !ok || len(call.Args) != 0 {
+			return false
+		}
+		se, ok := call.Fun.(*ast.SelectorExpr)
+		return ok && se.Sel.Name == "precedence" && isIdent(se.X, env.recvName)
+	}
+	if isCall(e) {
+		return true
+	}
+	id, ok := stripParens(e).(*ast.Ident)
+	if !ok {
+		return false
+	}
+	obj := fc.info.Uses[id]
+	if obj == nil {
+		return false
+	}
+	// the definitions of the variable anywhere in package ast (it is local, so they are all in one function)
+	nDefs, good := 0, true
+	for _, f := range fc.c.pkg("internal/ast").Syntax {
+		ast.Inspect(f, func(n ast.Node) bool {
+			as, ok := n.(*ast.AssignStmt)
+			if !ok {
+				return true
+			}
+			for i, l := range as.Lhs {
+				lid, ok := l.(*ast.Ident)
+				if !ok || (fc.info.Defs[lid] != obj && fc.info.Uses[lid] != obj) {
+					continue
+				}
+				nDefs++
+				if len(as.Lhs) != len(as.Rhs) || !isCall(as.Rhs[i]) {
+					good = false
+				}
+			}
+			return true
+		})
+	}
+	return nDefs == 1 && good
 }
